@@ -22,7 +22,7 @@ pub fn prop() -> Prop {
         subs: vec![
             Sub::enumerate("triangles_grid", triangles_grid),
             Sub::tape("triangles_random", 32, 150_000, 7_500_000, triangles_random),
-            Sub::tape("triangles_large", 32, 3_000, 150_000, triangles_large),
+            Sub::tape("triangles_large", 32, 2_000, 100_000, triangles_large),
             Sub::tape("polylines", 64, 200_000, 10_000_000, polylines),
         ],
     }
@@ -67,6 +67,20 @@ fn check_triangle(a: Point, b: Point, c: Point, d: Option<Point>) -> Res {
     t.into_styled(PrimitiveStyle::with_fill(Rgb888::nth(1))).draw(&mut tgt).map_err(|e| Fail { sig: "triangle:draw_error".into(), detail: format!("{:?}", e) })?;
     let drawn: S = tgt.0.map.keys().map(|&(x, y)| (y, x)).collect();
     check_cover(a, b, c, &drawn, "filled")?;
+    // a fill without stroke does not depend on the stroke alignment or on the winding (non-degenerate triangles;
+    // the drawn fill of the other vertex orders, not only points())
+    if orient(a, b, c) != 0 {
+        for align in [StrokeAlignment::Inside, StrokeAlignment::Outside] {
+            for (vo, perm) in [[a, b, c], [a, c, b], [c, b, a]].iter().enumerate() {
+                let style = PrimitiveStyleBuilder::new().fill_color(Rgb888::nth(1)).stroke_alignment(align).build();
+                let mut t2 = NativeT::<Rgb888>::new();
+                t2.0.log = false;
+                Triangle::new(perm[0], perm[1], perm[2]).into_styled(style).draw(&mut t2).map_err(|e| Fail { sig: "triangle:draw_error".into(), detail: format!("{:?}", e) })?;
+                let d2: S = t2.0.map.keys().map(|&(x, y)| (y, x)).collect();
+                ensure!(d2 == drawn, "triangle:fill_depends_on_alignment_or_winding", "fill without stroke, alignment {:?}, vertex order #{}: {} pixels, the plain fill has {}; differing {:?}", align, vo, d2.len(), drawn.len(), d2.symmetric_difference(&drawn).take(6).map(|k| pt(*k)).collect::<Vec<_>>());
+            }
+        }
+    }
     // vertex order
     for perm in [[a, c, b], [b, a, c], [b, c, a], [c, a, b], [c, b, a]] {
         let s2 = set(Triangle::new(perm[0], perm[1], perm[2]).points());
